@@ -296,17 +296,17 @@ def _decades(draw, shape):
     return _unflatten([draw(_SIGN) * draw(_DEC_M) * 10.0 ** k for k in ks], list(shape))
 
 
-def _floats(draw, shape):
+def _floats(draw, shape, dec=1):
     j = draw(_S_0_4)
     if j == 0:
         return _nested(draw, shape, _FN)
-    if j == 1 and shape:
+    if 1 <= j <= dec and shape:
         return _decades(draw, shape)
     return _scaled(_nested(draw, shape, _F), draw(_MAG))
 
 
 # class C: storage dtypes other than float64 / int64 (the oracle casts the working-unit numbers; see c10.to_storage)
-FLOAT_DT = ('f4', 'f4', 'f2', '>f8', '>f4')
+FLOAT_DT = ('f4', 'f4', 'f2', 'f2', '>f8', '>f4')
 INT_DT = ('i1', 'i2', 'i4', 'u1', 'u2', 'u4', 'u8', '>i2', '>i4', '>i8', 'bool')
 # u8 stops at the int64 maximum: numpy itself reads a list that holds 2**63 and a smaller number back as float64
 INT_RANGE = {'i1': (-2 ** 7, 2 ** 7 - 1), 'i2': (-2 ** 15, 2 ** 15 - 1), 'i4': (-2 ** 31, 2 ** 31 - 1), 'u1': (0, 2 ** 8 - 1),
@@ -428,7 +428,7 @@ def _props(draw, natoms, scaled_ok):
             elif dt in ('f2', 'f4') and draw(S_BOOL):
                 vals = _nested(draw, shape, _FD)
             else:
-                vals = _floats(draw, shape)
+                vals = _floats(draw, shape, 2)
         elif kind == 'i':
             unit = draw(_sf((None, None, None, 'nm', 'eV',)))
             if dt == 'bool':
